@@ -187,19 +187,19 @@ Example C10_mixed_nonvacuous :
   let p := mkXP [DL (LLit [1; 2]%Z); DL (LAppend (LConst 0) (ZS (SLit 3)))] []
                 [XMLit [(kl, XVList 1); (kn, XVInt (SLit 1))]]
                 [XBList (XMLit [(ka, XVInt (SArg 0)); (kl, XVList 1)]) kl; XBList (XMPut (XMConst 0) kz (XVInt (SArg 1))) kl]
-                (BZ (ZAdd (ZMul (ZSize (LAppend (LConst 2) (ZS (SArg 0)))) (ZS (SLit 10)))
-                          (ZIndex (LAppend (LConst 3) (ZS (SArg 1))) (ZS (SLit 3))))) in
-  let q := mkXP [DL (LLit [4]%Z)] [] [XMLit [(kn, XVInt (SLit 1))]] [XBList (XMPut (XMConst 0) ka (XVInt (SArg 0))) kl] (BZ (ZSize (LConst 1))) in
+                (XB (BZ (ZAdd (ZMul (ZSize (LAppend (LConst 2) (ZS (SArg 0)))) (ZS (SLit 10)))
+                              (ZIndex (LAppend (LConst 3) (ZS (SArg 1))) (ZS (SLit 3)))))) in
+  let q := mkXP [DL (LLit [4]%Z)] [] [XMLit [(kn, XVInt (SLit 1))]] [XBList (XMPut (XMConst 0) ka (XVInt (SArg 0))) kl] (XB (BZ (ZSize (LConst 1)))) in
   let g1 := xrun_event cp new_xgenerator (XEGen p) in
   let g2 := xrun_event cp g1 (XEEval 0 [5; 7]%Z 0) in
   xgstate_ok g1 /\ length (xg_funcs g1) = 1 /\ xprog_wt p = true /\ xprog_wt q = true /\
   repr (xg_heap g1) 1 = (true, 3, 6) /\ repr (xg_heap g2) 1 = (true, 3, 3) /\
   length (mh_arrs (xg_mh g1)) = 1 /\ length (mh_arrs (xg_mh g2)) = 2 /\
-  sp_xprog p [5; 7]%Z 0 = Some (FuncState.OInt 47) /\
-  xeval_after cp g1 [] 0 [5; 7]%Z 0 = FuncState.OInt 47 /\
-  xeval_after cp g1 [XEEval 0 [5; 7]%Z 0; XEEval 0 [1; 2]%Z 0; XEGen q; XEEval 1 [0]%Z 0; XEMapOps [MLit [(ka, 3%Z)]]] 0 [5; 7]%Z 0 = FuncState.OInt 47 /\
-  sp_xprog q [0]%Z 0 = Some FuncState.OErr /\
-  xeval_after cp g1 [XEGen q; XEEval 0 [5; 7]%Z 0] 1 [0]%Z 0 = FuncState.OErr.
+  sp_xprog p [5; 7]%Z 0 = Some (XO (FuncState.OInt 47)) /\
+  xeval_after cp g1 [] 0 [5; 7]%Z 0 = XO (FuncState.OInt 47) /\
+  xeval_after cp g1 [XEEval 0 [5; 7]%Z 0; XEEval 0 [1; 2]%Z 0; XEGen q; XEEval 1 [0]%Z 0; XEMapOps [MLit [(ka, 3%Z)]]] 0 [5; 7]%Z 0 = XO (FuncState.OInt 47) /\
+  sp_xprog q [0]%Z 0 = Some (XO FuncState.OErr) /\
+  xeval_after cp g1 [XEGen q; XEEval 0 [5; 7]%Z 0] 1 [0]%Z 0 = XO FuncState.OErr.
 Proof.
   cbv zeta. split; [apply (C10_mixed_reachable_states_ok _ [XEGen _])|]. vm_compute. repeat split; reflexivity.
 Qed.
@@ -212,22 +212,37 @@ Qed.
 Example C10_list_of_lists_nonvacuous :
   let cp := mkCaps (fun n => 2 * n) (fun n => 2 * n) in
   let p := mkXP [DL (LLit [1; 2]%Z); DL (LMap (SLit 1) (LConst 0)); DL (LLit [3]%Z); DL (LAppend (LConst 2) (ZS (SLit 4)))]
-                [[1; 3]] [] [XBIndex 0 (SArg 0)] (BL (LAppend (LConst 4) (ZS (SArg 1)))) in
+                [[1; 3]] [] [XBIndex 0 (SArg 0)] (XB (BL (LAppend (LConst 4) (ZS (SArg 1))))) in
   let g1 := xrun_event cp new_xgenerator (XEGen p) in
   let g2 := xrun_hist cp g1 [XEEval 0 [1; 9]%Z 9; XEEval 0 [0; 8]%Z 0] in
   xgstate_ok g1 /\ length (xg_funcs g1) = 1 /\ xprog_wt p = true /\
   icontent (xg_heap g1) 4 = [1; 3]%Z /\ icontent (xg_heap g2) 4 = [1; 3]%Z /\
   repr (xg_heap g1) 1 = (false, 0, 0) /\ repr (xg_heap g2) 1 = (true, 2, 2) /\
   repr (xg_heap g1) 3 = (true, 2, 4) /\ repr (xg_heap g2) 3 = (true, 2, 2) /\
-  sp_xprog p [1; 9]%Z 9 = Some (FuncState.OList [3; 4; 9]%Z) /\
-  xeval_after cp g1 [] 0 [1; 9]%Z 9 = FuncState.OList [3; 4; 9]%Z /\
-  xeval_after cp g1 [XEEval 0 [1; 9]%Z 9; XEEval 0 [0; 8]%Z 0; XEGen p; XEEval 1 [1; 7]%Z 1] 0 [1; 9]%Z 9 = FuncState.OList [3; 4; 9]%Z /\
-  xeval_after cp g1 [XEEval 0 [1; 9]%Z 9] 0 [0; 5]%Z 9 = FuncState.OList [2; 3; 5]%Z /\
-  sp_xprog p [2; 0]%Z 9 = Some FuncState.OErr /\
-  xeval_after cp g1 [XEEval 0 [1; 9]%Z 9] 0 [2; 0]%Z 9 = FuncState.OErr.
+  sp_xprog p [1; 9]%Z 9 = Some (XO (FuncState.OList [3; 4; 9]%Z)) /\
+  xeval_after cp g1 [] 0 [1; 9]%Z 9 = XO (FuncState.OList [3; 4; 9]%Z) /\
+  xeval_after cp g1 [XEEval 0 [1; 9]%Z 9; XEEval 0 [0; 8]%Z 0; XEGen p; XEEval 1 [1; 7]%Z 1] 0 [1; 9]%Z 9 = XO (FuncState.OList [3; 4; 9]%Z) /\
+  xeval_after cp g1 [XEEval 0 [1; 9]%Z 9] 0 [0; 5]%Z 9 = XO (FuncState.OList [2; 3; 5]%Z) /\
+  sp_xprog p [2; 0]%Z 9 = Some (XO FuncState.OErr) /\
+  xeval_after cp g1 [XEEval 0 [1; 9]%Z 9] 0 [2; 0]%Z 9 = XO FuncState.OErr.
 Proof.
   cbv zeta. split; [apply (C10_mixed_reachable_states_ok _ [XEGen _])|]. vm_compute. repeat split; reflexivity.
 Qed.
+
+(* non-vacuity for STRING results: `let c0=[1,2,3]; let m0={l:c0,n:7}; let n0=m0.put("z",a0).z; let n1=m0.put("z",a0).n;
+   "z="+n0+";n="+n1+";"+(a1*2)` - immutable scalars, no heap step after the lets *)
+Example C10_string_result_nonvacuous :
+  let cp := mkCaps (fun n => 2 * n) (fun n => 2 * n) in
+  let kl := [108%N] in let kn := [110%N] in let kz := [122%N] in
+  let p := mkXP [DL (LLit [1; 2; 3]%Z)] [] [XMLit [(kl, XVList 0); (kn, XVInt (SLit 7))]]
+                [XBInt (XMPut (XMConst 0) kz (XVInt (SArg 0))) kz; XBInt (XMPut (XMConst 0) kz (XVInt (SArg 0))) kn]
+                (XBStr [XSLit [122; 61]%N; XSInt (SCst 0); XSLit [59; 110; 61]%N; XSInt (SCst 1); XSLit [59]%N; XSInt (SMul (SArg 1) (SLit 2))]) in
+  let g1 := xrun_event cp new_xgenerator (XEGen p) in
+  xprog_wt p = true /\
+  sp_xprog p [-5; 21]%Z 0 = Some (XOStr [122; 61; 45; 53; 59; 110; 61; 55; 59; 52; 50]%N) /\
+  xeval_after cp g1 [XEEval 0 [1; 2]%Z 0; XEGen p; XEEval 1 [0; 0]%Z 0] 0 [-5; 21]%Z 0 = XOStr [122; 61; 45; 53; 59; 110; 61; 55; 59; 52; 50]%N /\
+  xeval_after cp g1 [] 0 [0; 0]%Z 0 = XOStr [122; 61; 48; 59; 110; 61; 55; 59; 48]%N.
+Proof. vm_compute. repeat split; reflexivity. Qed.
 
 Print Assumptions C10_outcome_depends_on_content_only.
 Print Assumptions C10_eval_history_independent.
